@@ -37,8 +37,12 @@ N_POS = {"Ham": 0, "AA": 1, "BB": 1, "CC": 2, "FF": 2, "SS": 0, "SA": 1, "SHA": 
 SPIN_KEYS = ("SS", "SA", "SHA", "SR", "SH", "SHR")
 PAULI = [np.array([[0, 1], [1, 0]], complex), np.array([[0, -1j], [1j, 0]]), np.array([[1, 0], [0, -1]], complex)]
 
-case_st = st.fixed_dictionaries(dict(
-    kind=st.sampled_from(["tr_spinless", "tr_spinful", "inv_spinless", "inv_spinful"]),
+KINDS = ["tr_spinless", "tr_spinful", "inv_spinless", "inv_spinful"]
+
+
+def case_st(kind):
+  return st.fixed_dictionaries(dict(
+    kind=st.just(kind),
     lat=wbsys.lattice_st(kinds=["triclinic", "generic"]),
     norb=st.integers(2, 3),
     rs=st.integers(0, 2 ** 32),
@@ -46,7 +50,7 @@ case_st = st.fixed_dictionaries(dict(
     half=st.lists(st.lists(st.sampled_from([0.0, 0.5]), min_size=3, max_size=3), min_size=3, max_size=3),
     par=st.lists(st.sampled_from([1, -1]), min_size=3, max_size=3),
     cgen=st.lists(st.lists(fl(0.0, 0.9), min_size=3, max_size=3), min_size=3, max_size=3),
-))
+  ))
 
 
 def hermitize_all(mats, iRvec):
@@ -222,7 +226,7 @@ def check(case):
             a = c1(cls(system, grid=grid, dK=k.copy()))
             b = c2(cls(system, grid=grid, dK=-k))
         except Exception as e:  # noqa  missing matrix / unsupported variant: skipped (counted), see ASSUMPTIONS
-            labels.append(f"skip-eval:{type(e).__name__}")
+            labels.append(f"skip-eval:{type(e).__name__}:{name}")
             continue
         if not hasattr(a, "data") or not hasattr(b, "data"):
             labels.append(f"void:{name}")
@@ -252,9 +256,11 @@ def check(case):
     new = [f for f in found if f"parity:{f[0]}" not in known]
     if new:
         raise Violation(new[0][0], new[0][1] + (f" [also: {[f[0] for f in found if f is not new[0]]}]" if len(found) > 1 else ""))
-    if found:
-        raise Violation(found[0][0], found[0][1])
-    return ok(nonvac >= 10, kind, *labels)
+    # listed findings are excluded from the verdict (counted, reported as KNOWN-FINDING by the runner) so that the
+    # search continues behind them
+    return ok(nonvac >= 10, kind, *labels, known=[f[0] for f in found])
 
 
-SUBS = [Sub("parity", case_st, check, quick=8, thorough=192, budget_quick=100, budget_thorough=560, per_shard_min=1)]
+# one sub per model kind (stratified: every kind is exercised in every run); they share the bucket namespace 'parity'
+SUBS = [Sub(kind, case_st(kind), check, quick=2, thorough=48, budget_quick=100, budget_thorough=560, per_shard_min=1,
+            group="parity") for kind in KINDS]
